@@ -19,7 +19,7 @@ LEVEL_NOTE = [
     "versions are compared as thousandths; Python compares the nearest doubles (monotone rounding; bounds have ≤ 3 decimals — refused otherwise)",
     "jsonschema's verdict on the pruned schema is third-party (validator gap): exercised by oracle (b)",
 ]
-RULE = ("every schema file × version in {none, 0, each bound −0.1 / at / +0.1, 1000}; call histories of length ≤ 30 on one Validator; every annotated "
+RULE = ("every schema file × version in {none, 0, each bound −0.1 / −0.04 / −0.01 / at / +0.01 / +0.04 / +0.1, 1000}; call histories of length ≤ 30 on one Validator; every annotated "
         "keyword × object type × the same versions as a generated document; non-trivial = a versioned request that removes at least one entry; distinct by (schema, version, history)")
 
 
@@ -58,6 +58,8 @@ def version_points():
     pts = {Decimal("0.0"), Decimal("1000.0"), Decimal("1000.1"), Decimal("0.1")}
     for b in bounds():
         pts |= {b - Decimal("0.1"), b, b + Decimal("0.1")}
+        # and just off the bound (a version is compared as it is, not rounded to one decimal)
+        pts |= {b - Decimal("0.01"), b + Decimal("0.01"), b + Decimal("0.04"), b - Decimal("0.04")}
     out = [None]
     for p in sorted(pts):
         if p < 0:
